@@ -11,6 +11,7 @@ Everything else in C20 is the two-engine differential of harness/props/c20.py (l
 import D3.Properties.C05
 import D3.Properties.C05Insert
 import D3.Properties.C14
+import D3.Properties.C15
 
 namespace D3
 namespace C20
@@ -75,6 +76,18 @@ theorem insert_index_safe (h : List Aabb.Batch) (hok : ∀ b ∈ h, b.Ok) :
     ∃ tr, Aabb.runHistory Tree.empty h = .ok tr := by
   obtain ⟨tr, _, hrun, _⟩ := C05Insert.history_wf h hok
   exact ⟨tr, hrun⟩
+
+/-- **index safety of the half-plane buffer.** `intersect_halfplanes` stores one row per valid
+pairwise intersection into a buffer of `n (n-1) // 2 + 1` rows; for every list of half-planes the
+store index is in range and the final `assert` holds, so the compiled engine (unchecked store)
+and the interpreted one (IndexError / AssertionError) cannot differ here.  (Before the repair
+recorded as F-C15-halfplane-buffer the buffer had `3 n` rows: eight concurrent boundary lines
+made the interpreted engine raise `IndexError` and the compiled one write out of bounds —
+`C15.halfplane_buffer_overflow_before_fix`.) -/
+theorem halfplane_buffer_index_safe (hps : List (Hydro.HP ℝ)) :
+    ∃ res, Hydro.intersectHalfplanes hps = .ok res :=
+  let ⟨res, h, _⟩ := C15.halfplane_buffer_never_overflows hps
+  ⟨res, h⟩
 
 end C20
 end D3
